@@ -193,6 +193,9 @@ func (ix *BM25SearchIndex) Add(id uint32, text string) error {
 	if _, exists := ix.docTokens[id]; exists {
 		ix.removeInternal(id)
 	}
+	// The old text (if any) is gone now; a tombstone left by an earlier Remove
+	// must not hide the new text or make the next Flush delete it.
+	ix.deletedDocs.Remove(id)
 
 	normText := normalize(text)
 	tokens := tokenize(normText)
